@@ -33,9 +33,32 @@ type workerProc struct {
 	lastProg progState
 	lastCPU  float64 // cpu seconds when lastProg was first seen
 	restarts int
+	timeouts int
 	fromSub  int
 	fromIdx  uint64
 	finished bool
+}
+
+func rssBytes(pid int) int64 {
+	b, err := os.ReadFile(fmt.Sprintf("/proc/%d/statm", pid))
+	if err != nil {
+		return -1
+	}
+	f := strings.Fields(string(b))
+	if len(f) < 2 {
+		return -1
+	}
+	n, _ := strconv.ParseInt(f[1], 10, 64)
+	return n * int64(os.Getpagesize())
+}
+
+const maxWorkerRSS = 6 << 30
+
+func (d *driver) caseLimit(sub int) float64 {
+	if sub >= 0 && sub < len(d.p.Subs) && d.p.Subs[sub].CaseCPU > 0 {
+		return d.p.Subs[sub].CaseCPU
+	}
+	return d.caseCPU
 }
 
 func cpuSeconds(pid int) float64 {
@@ -153,7 +176,7 @@ func (d *driver) pinpoint(race bool, sub string, idx uint64) (string, *SubResult
 	}
 	done := make(chan error, 1)
 	go func() { done <- cmd.Wait() }()
-	limit := d.caseCPU
+	limit := d.caseLimit(d.subIndex(sub))
 	wall := time.Now().Add(time.Duration(limit*20) * time.Second)
 	for {
 		select {
@@ -175,7 +198,7 @@ func (d *driver) pinpoint(race bool, sub string, idx uint64) (string, *SubResult
 			}
 			return "pass", nil, nil
 		case <-time.After(200 * time.Millisecond):
-			if cpu := cpuSeconds(cmd.Process.Pid); cpu > limit {
+			if cpu := cpuSeconds(cmd.Process.Pid); cpu > limit || rssBytes(cmd.Process.Pid) > maxWorkerRSS {
 				cmd.Process.Signal(syscall.SIGQUIT)
 				time.Sleep(300 * time.Millisecond)
 				cmd.Process.Kill()
@@ -212,7 +235,7 @@ func Drive(propID, tier string) int {
 		}
 	}
 	exe, _ := os.Executable()
-	d := &driver{p: p, tier: tier, seed: seed, exe: exe, raceExe: os.Getenv("VERIF_RACE_BIN"), caseCPU: 120}
+	d := &driver{p: p, tier: tier, seed: seed, exe: exe, raceExe: os.Getenv("VERIF_RACE_BIN"), caseCPU: 60}
 	d.nshard = runtime.NumCPU()
 	if v := os.Getenv("VERIF_WORKERS"); v != "" {
 		if x, err := strconv.Atoi(v); err == nil && x > 0 {
@@ -294,13 +317,15 @@ func (d *driver) runPhase(race bool, subs []string) {
 		case "crash":
 			d.extra = append(d.extra, Violation{Sub: sub.Name, Idx: ps.Idx, Sig: "crash", Detail: det})
 		case "timeout":
-			det["cpu_limit_s"] = d.caseCPU
+			det["cpu_limit_s"] = d.caseLimit(ps.Sub)
+			det["note"] = "the isolated case exceeded its CPU-time (or 6 GiB memory) limit in a fresh process"
 			d.extra = append(d.extra, Violation{Sub: sub.Name, Idx: ps.Idx, Sig: "nontermination", Detail: det})
+			w.timeouts++
 		default:
 			d.incon = append(d.incon, fmt.Sprintf("worker %d %s in %s case %d, but the case passes when run alone", w.shard, why, sub.Name, ps.Idx))
 		}
 		w.restarts++
-		if w.restarts > 8 {
+		if w.restarts > 8 || w.timeouts > 1 {
 			d.incon = append(d.incon, fmt.Sprintf("worker %d restarted too often; remainder of its shard not run", w.shard))
 			w.finished = true
 			return
@@ -332,8 +357,14 @@ func (d *driver) runPhase(race bool, subs []string) {
 			// per-case CPU watchdog
 			ps := readProgress(progPath(w))
 			cpu := cpuSeconds(w.cmd.Process.Pid)
+			if rssBytes(w.cmd.Process.Pid) > maxWorkerRSS {
+				w.cmd.Process.Kill()
+				<-w.done
+				handleDeath(w, "exceeded 6 GiB of memory")
+				continue
+			}
 			if ps.Active && w.lastProg.Active && ps.Sub == w.lastProg.Sub && ps.Idx == w.lastProg.Idx {
-				limit := d.caseCPU
+				limit := d.caseLimit(ps.Sub)
 				if cpu-w.lastCPU > limit {
 					w.cmd.Process.Signal(syscall.SIGQUIT)
 					time.Sleep(200 * time.Millisecond)
